@@ -4,6 +4,7 @@ manifest is always schema-valid and in step with what the driver implements)."""
 import json, subprocess
 
 HOOK_COMMITS = ["ff49be5"]
+FIX_COMMITS = ["20bf16f", "aefc590", "f10f830", "24ec5ad", "9659f5f"]
 
 NA = {
  "C12": "codec round-trip is a pure function of (input bytes, level); nothing in it depends on scheduling, time, I/O or faults, so a simulator would only be an input generator in disguise (DESIGN.md section 0)",
@@ -19,6 +20,25 @@ CHECKS = {
    "trusts the generated yield points (every lock / channel operation of pike's packages) as the only places where interleaving matters; origin, clock and listener are simulated; canonical Cache-Control only (the header language belongs to C03)",
    "deterministic simulation: seeded scheduler + fake clock, history oracle"),
 }
+
+CHECKS.update({
+ "C02": ("exploration", "7.2",
+   "seeded search over schedules x fetch outcomes {cacheable, uncacheable, undecodable body, transport error, never answers + proxy timeout, mid-body abort -> panic} in any sequence over epochs, with purges and an optional store; the scheduler's stuck detector (no enabled action after advancing the simulated clock by more than an hour) plus a served-or-explained oracle on every request and a final probe per key.",
+   "liveness is decided within bounds: <= 1500 steps per run, clock horizon of one simulated hour; a step-budget overrun is counted as inconclusive, never reported",
+   "deterministic simulation: seeded scheduler + fault injection at the origin seam, deadlock/bounded-liveness detector"),
+ "C03": ("exploration", "7.3",
+   "seeded sampling of the origin's header language (directive order, casing, spacing, several header lines, Set-Cookie, Age forms, statuses, methods) checked through state and time: every reply the reference predicate says must not be stored is followed by further requests of its key (some concurrent with the fetch) and must never be served to them; cache-status labels are compared with the origin's request log. One-directional, as the statement is 'stored only if'.",
+   "the header language is an input space that is sampled, not enumerated; inputs the statement does not pin down (overflowing numbers, malformed Age with a positive lifetime) are treated as ambiguous and assert nothing",
+   "deterministic simulation: seeded header grammar through store->reuse histories, label vs upstream-log oracle"),
+ "C04": ("exploration", "7.4",
+   "timed histories on the simulated clock with requests placed at expiry-1s, inside the expiry second, and the second after, over several refetch epochs; half strictly sequential with the clock moving only between requests (exact oracle), half concurrent with clock movement inside requests (jitter-sound interval oracle: a hit is stale only if it is stale under the most lenient placement of pike's timestamps).",
+   "interval oracle can miss a violation that hides inside an interval but cannot invent one; canonical Cache-Control only",
+   "deterministic simulation: fake clock + timed histories, interval oracle"),
+ "C07": ("exploration", "7.7",
+   "hit-for-pass histories on the simulated clock for periods {unset, 0s, negative, 1s, 2s, 5s, 300s}: requests surely inside the period must each reach the origin once and never be parked (scheduler observation) - non-queueing is decided with a withholding schedule (origin replies of the key are delivered only when nothing else can move); after the period the single-flight oracle applies again; the default period is bracketed at +299s/+302s.",
+   "a request counts as inside / after the period only when that holds for every possible placement of pike's marker timestamp",
+   "deterministic simulation: fake clock, withholding schedule, scheduler observation of parked requests"),
+})
 
 PENDING = {}
 
